@@ -30,6 +30,7 @@ structure Backend where
   failNum : Int := 0
   connNum : Int := 0
   released : Nat := 0
+  restarted : Bool := false   -- BfeBackend.restarted: set by Update for the backends it adds (slow start), not by Init
   deriving DecidableEq, Repr
 
 structure BConf where
@@ -63,7 +64,7 @@ def BConf.key (c : BConf) : String := c.addr ++ ":" ++ toString c.port
 
 def rel (b : Backend) : Backend := { b with released := b.released + 1 }
 
-def mkNew (c : BConf) : Backend := { name := c.name, addr := c.addr, port := c.port, weight := c.weight * 100 }
+def mkNew (c : BConf) : Backend := { name := c.name, addr := c.addr, port := c.port, weight := c.weight * 100, restarted := true }
 
 /-- confMapMake: one entry per AddrInfo, the later duplicate wins -/
 def confMap (conf : List BConf) : List BConf :=
@@ -153,7 +154,7 @@ def balTableReload (st : St) (g : GslbConf) (bc : TableConf) : Res :=
   { st := { clusters := r2.map (·.1), grave := st.grave ++ g1 ++ r2.flatMap (·.2.1) }
     gslbErr := r1.any (·.2.2), tableErr := r2.any (·.2.2) }
 
-def mkInit (c : BConf) : Backend := mkNew c
+def mkInit (c : BConf) : Backend := { mkNew c with restarted := false }
 
 def initSub (cb : List (String × List BConf)) (s : Sub) : Sub :=
   match cb.lookup s.name with
@@ -177,6 +178,22 @@ def balTableInit (g : GslbConf) (bc : TableConf) : Res :=
 /-- a whole history: Init, then any number of BalTableReload calls (errors of a step do not stop the history) -/
 def runHist (g0 : GslbConf) (bc0 : TableConf) (h : List (GslbConf × TableConf)) : St :=
   h.foldl (fun st p => (balTableReload st p.1 p.2).st) (balTableInit g0 bc0).st
+
+/-- the loaders' checks (GslbConfCheck: every cluster has a positive total weight; ClusterTableConfCheck: every
+    sub-cluster has at least one backend of positive weight): a file that fails them never reaches BalTableReload -/
+def confValid (g : GslbConf) (bc : TableConf) : Bool :=
+  g.all (fun p => decide (confTotal p.2 > 0)) &&
+  bc.all (fun c => c.2.all fun s => s.2.any fun b => decide (b.weight > 0))
+
+/-- reload from files (BalTableConfLoad; BalTableReload), as the server does it: a rejected file changes nothing -/
+def fileReload (st : St) (g : GslbConf) (bc : TableConf) : St :=
+  if confValid g bc then (balTableReload st g bc).st else st
+
+/-- history of reload requests, each through the API (`false`) or from files (`true`) -/
+def runMixed (st : St) : List (Bool × GslbConf × TableConf) → St
+  | [] => st
+  | (true, g, bc) :: r => runMixed (fileReload st g bc) r
+  | (false, g, bc) :: r => runMixed (balTableReload st g bc).st r
 
 def tableObjs (st : St) : List Backend := st.clusters.flatMap fun c => c.subs.flatMap (·.backs)
 
